@@ -213,7 +213,7 @@ func (cp *MultihashPrimary) Get(blk types.Block) ([]byte, []byte, error) {
 	if err != nil {
 		return nil, nil, err
 	}
-	if key != nil && value != nil {
+	if key != nil {
 		return key, value, nil
 	}
 
